@@ -761,7 +761,9 @@ def check_read(acc, root, o):
 
 
 def write_key(acc, root, t, v, o, aspect):
-    if acc.order == "Null" and len(root) < acc.boff + acc.c:
+    # CouldWriteValue is static: its verdict cannot depend on the buffer, so a wrong verdict on a short
+    # Null-ordered container is the argument/range defect, not the (now fixed) Null-orderer size defect
+    if acc.order == "Null" and len(root) < acc.boff + acc.c and aspect != "could_write":
         return "null-byte-order-short-buffer"
     if acc.kind == "enum" and acc.ut[0]:
         return "enum-signed-narrow-write"
